@@ -426,11 +426,29 @@ def dict_names(kty, vty):
     return "dom." + sort_tag(ks), "val." + sort_tag(ks) + "." + stag(vty), ks, vs
 
 
+def sel(arr, k):
+    """arr[k] with the select pushed through map / store / ite / constant arrays (dict.update builds Map terms; reading one key of the
+    result is then a plain boolean / ite combination of reads of the operands, which the solvers handle far better than array combinators)"""
+    if z3.is_app(arr):
+        kind = arr.decl().kind()
+        if kind == z3.Z3_OP_ARRAY_MAP:
+            return z3.get_map_func(arr)(*[sel(a, k) for a in arr.children()])
+        if kind == z3.Z3_OP_STORE:
+            a, i, v = arr.children()
+            return v if z3.eq(i, k) else z3.If(i == k, v, sel(a, k))
+        if kind == z3.Z3_OP_ITE:
+            c, a, b = arr.children()
+            return z3.If(c, sel(a, k), sel(b, k))
+        if kind == z3.Z3_OP_CONST_ARRAY:
+            return arr.arg(0)
+    return arr[k]
+
+
 def dict_has(E, d, key):
     kty, vty = dict_types(E, d)
     dn, vn, ks, vs = dict_names(kty, vty)
     k = E.coerce(key, kty)
-    return E.hread(dn, z3.ArraySort(ks, B), d.z)[k.z]
+    return sel(E.hread(dn, z3.ArraySort(ks, B), d.z), k.z)
 
 
 def dict_get(E, d, key, node=None, check=True):
@@ -438,13 +456,13 @@ def dict_get(E, d, key, node=None, check=True):
     dn, vn, ks, vs = dict_names(kty, vty)
     k = E.coerce(key, kty)
     if check and not E.st.spec:
-        has = E.hread(dn, z3.ArraySort(ks, B), d.z)[k.z]
+        has = sel(E.hread(dn, z3.ArraySort(ks, B), d.z), k.z)
         if E.c.d.get("keyerror") == "raise":
             if not E.branch(has):
                 raise RaiseEx("KeyError", None, node)
         elif E.c.safety:
             E.oblige("key", has, U(node) if node is not None else "")
-    z = E.hread(vn, z3.ArraySort(ks, vs), d.z)[k.z]
+    z = sel(E.hread(vn, z3.ArraySort(ks, vs), d.z), k.z)
     r = V(strip_opt(vty), z)
     E.assume_wf(r, is_opt(vty))
     return r
@@ -1580,8 +1598,9 @@ def external_call(E, name, ext, e, recv=None, args=None, kwargs=None):
         for r in oc.get("ensures", []):
             st.pc.append(E.spec(r, extra=env2))
         if ext.get("ghost_update"):
-            gname, gexpr = ext["ghost_update"]
-            st.vars[gname] = E.spec_value_env(gexpr, env2)
+            gu = ext["ghost_update"]
+            for gname, gexpr in ([gu] if isinstance(gu[0], str) else gu):  # one (name, expr) pair or a list of pairs (evaluated in order)
+                st.vars[gname] = E.spec_value_env(gexpr, env2)
     finally:
         if saved_entry_ext is not None:
             st.labels["entry"] = saved_entry_ext
